@@ -35,7 +35,7 @@ RULE = ('A file = 2..25 logical records (4 % of the files: a single record, half
         'the 8 trailer combinations (quick tier: 3 of them), TIF none/normal/reversed, and for each record every composition of its length into sized operations, '
         'each a read or a skip, the last one exact / one byte too large / size -1 (6*3^(L-1) plans per record, all pairs).')
 ASSUMPTIONS = [
-    'The two checksum value bytes are excluded from the byte comparison: no reader verifies them and the algorithm cannot be cross-checked offline; their presence, position and the checksum attribute bit are compared',
+    'The two checksum value bytes are compared with the harness\'s own reading of the LIS-79 checksum (words added with end-around carry, sum rotated left after each word; the standard\'s text is not available offline, the repository agrees with this reading on every record written); half of the files with a checksum trailer have up to three records aimed at the checksums 0xFFFF, 0x0000, 0x8000, 0x0001, 0x7FFF',
     'End-of-record signals (None / 0 for a non-zero request) are accepted whenever the current record is exhausted and are not counted, except that more than 2 in a row before a non-final record yields data again is reported as no progress',
     'tellLr() directly after seekLr() and before any read is not asserted (the reader has not looked at the file yet; it reports 0)',
     'seekCurrentLrStart() must land on the start of a record that tellLr() may report at that moment (directly after seekLr(): the record sought or record 0) and the cursor follows it',
@@ -56,7 +56,7 @@ MECHANISMS = [
     ('TotalDepth.LIS.core.TifMarker', 'TifMarkerRead._read'),
     ('TotalDepth.DeTif', 'strip_tif'),
 ]
-REQUIRED_MONITORS = ['writer_vs_encoder', 'write_positions', 'strip_tif', 'read_history', 'read_data', 'tellLr', 'tell',
+REQUIRED_MONITORS = ['writer_vs_encoder', 'write_positions', 'checksum_values', 'strip_tif', 'read_history', 'read_data', 'tellLr', 'tell',
                      'exhaustive_splits',
                      'contract:PhysRecRead._readHead', 'contract:PhysRecRead._readTail', 'contract:PhysRecRead.__readOrSkip',
                      'contract:PhysRecRead.readLrBytes', 'contract:PhysRecRead.skipLrBytes', 'contract:PhysRecRead.skipToNextLr',
@@ -609,6 +609,48 @@ def first_difference(a, b):
     return n if len(a) != len(b) else None
 
 
+def lis79_checksum(b):
+    """The LIS-79 physical record checksum (type 01) as this harness reads the standard: the 16 bit big-endian words of the
+    record up to the checksum are added with end-around carry, the sum being rotated left one bit after every word."""
+    return _checksum_from(0, b)
+
+
+def _checksum_from(c, b):
+    for i in range(0, len(b) - 1, 2):
+        c += (b[i] << 8) | b[i + 1]
+        c = (c & 0xFFFF) + (c >> 16)
+        c = ((c << 1) & 0xFFFF) | (c >> 15)
+    return c
+
+
+def aim_checksums(G, lrs, pr_len, tr, tif, rng):
+    """Rewrite the last aligned payload word of up to three physical records so that their checksum is an extreme of the
+    16 bit range (0xFFFF: the 'minus zero' of the end-around sum, 0x0000, 0x8000, 0x0001).  Returns the new record list."""
+    if not tr.checksum:
+        return lrs
+    lrs = [bytearray(l) for l in lrs]
+    for target in rng.sample([0xFFFF, 0xFFFF, 0x0000, 0x8000, 0x0001, 0x7FFF], 3):
+        data, model = G.frame_file([bytes(l) for l in lrs], pr_len, tr, 'le' if tif else None, checksum=lis79_checksum)
+        cands = [p for p in model.phys if p.checksum_position is not None and p.trailer_position - p.payload_position >= 2]
+        if not cands:
+            break
+        p = rng.choice(cands)
+        n = p.trailer_position - p.payload_position
+        k = (n - 2) & ~1                                   # word aligned from the start of the physical record
+        head = data[p.header_position:p.payload_position + k]
+        tail = data[p.payload_position + k + 2:p.checksum_position]
+        if len(head) % 2:
+            continue
+        state = lis79_checksum(head)
+        for w in range(0x10000):
+            if _checksum_from(state, bytes([w >> 8, w & 0xFF]) + tail) == target:
+                lr = lrs[p.lr_index]
+                o = p.lr_offset + k
+                lr[o:o + 2] = bytes([w >> 8, w & 0xFF])
+                break
+    return [bytes(l) for l in lrs]
+
+
 def check_writer(ctl, T, G, lrs, pr_len, tr, tif, info, use_defaults=False, path=None):
     """Returns (real bytes, model) or None when the writer cannot be compared."""
     rec = ctl.rec
@@ -648,8 +690,22 @@ def check_writer(ctl, T, G, lrs, pr_len, tr, tif, info, use_defaults=False, path
         ctl.violation('write_positions', 'position', 'FileWrite.write() reported %r for records %r, the records start at %r' % (
             [pos[i] for i in bad], bad, [model.starts[i] for i in bad]),
             {'file': info, 'layout': model.describe(), 'reported': pos[:60], 'expected': model.starts[:60], 'kind': 'position'})
-    if model.checksum_ranges:
-        rec.add('checksum_value_bytes_excluded', 2 * len(model.checksum_ranges))
+    if model.checksum_ranges and ok:
+        # the checksum values, against the harness's own reading of the LIS-79 checksum
+        rec.mon('checksum_values', len(model.checksum_ranges))
+        for p in model.phys:
+            if p.checksum_position is None:
+                continue
+            want = lis79_checksum(got[p.header_position:p.checksum_position])
+            have = int.from_bytes(got[p.checksum_position:p.checksum_position + 2], 'big')
+            rec.cls('checksum-value:%s' % ('0xFFFF' if want == 0xFFFF else '0x0000' if want == 0 else 'other'))
+            if have != want:
+                ok = False
+                ctl.violation('checksum_values', 'value', 'physical record %d (at %d, %d bytes): checksum written %#06x, the words of the record sum (end-around carry, rotate) to %#06x' % (
+                    model.phys.index(p), p.position, p.length, have, want),
+                    {'file': info, 'layout': model.describe(), 'physical_record': model.phys.index(p), 'written': have, 'expected': want,
+                     'record_bytes': got[p.header_position:p.checksum_position + 2][:600], 'kind': 'checksum'})
+                break
     return (got, model) if ok else None
 
 
@@ -774,6 +830,9 @@ def read_targets(G, got, model):
 def do_file(ctl, T, G, seed, part, fi, tier):
     rng = random.Random('C05:%s:%s:%s' % (seed, part, fi))
     lrs, pr_len, tr, tif, klass = gen_file(rng, fi, G)
+    if tr.checksum and rng.random() < 0.5 and sum(len(l) for l in lrs) < 40000:
+        # checksums at the ends of their range: 0xFFFF and 0x0000 are the two zeros of the end-around sum
+        lrs = aim_checksums(G, lrs, pr_len, tr, tif, rng)
     info = file_info(lrs, pr_len, tr, tif, klass, part, fi)
     rec = ctl.rec
     rec.cls('file-trailer:%s%s%s' % ('R' if tr.record_number else '-', 'F' if tr.file_number is not None else '-', 'C' if tr.checksum else '-'))
